@@ -256,6 +256,55 @@ func HarnessC29PublishResolve() {
 // clock is the real one).
 var zz29Durs = []time.Duration{-time.Hour, 0, time.Minute, 90 * time.Second, time.Hour, 100 * time.Hour}
 
+// HarnessC29ResolveRemainders: after one publish, consecutive resolutions of /ipns/<name><rem_i> through the
+// same NameSystem (cache off / on, so that later ones are served from the entry the first one left behind):
+// every result is the published value plus that request's own remainder - cached and uncached agree.
+func HarnessC29ResolveRemainders() {
+	zz29Regs = nil
+	ctx := context.Background()
+	sk := zz29Key()
+	vals := zz29Paths()
+	pid, err := peer.IDFromPrivateKey(sk)
+	if err != nil {
+		panic(err)
+	}
+	name := ipns.NameFromPeer(pid)
+	rt := &zz29Routing{m: map[string][]byte{}}
+	store := &zz29DS{m: map[string][]byte{}}
+	nsOpts := []Option{WithDatastore(store), WithDNSResolverWithTTL(zz29NoDNS)}
+	cacheSize := verifrt.NondetRange("cache", 0, 2)
+	if cacheSize > 0 {
+		nsOpts = append(nsOpts, WithCache(cacheSize))
+	}
+	ns, err := NewNameSystem(rt, nsOpts...)
+	if err != nil {
+		panic(err)
+	}
+	v := verifrt.NondetRange("v", 0, 1)
+	ttl := zz29FewDurs[verifrt.NondetRange("ttl", 0, len(zz29FewDurs)-1)]
+	if err := ns.Publish(ctx, sk, vals[v], PublishWithTTL(ttl)); err != nil {
+		verifrt.Assert("C29.namesys-publish-succeeds", false)
+		return
+	}
+	rems := []string{"", "/x/y", "/x/z/", "/w"}
+	n := verifrt.Param("RESOLVES", 3)
+	for i := 0; i < n; i++ {
+		rem := rems[verifrt.NondetRange("rem", 0, len(rems)-1)]
+		ask, err := path.NewPath(name.AsPath().String() + rem)
+		if err != nil {
+			panic(err)
+		}
+		res, err := ns.Resolve(ctx, ask)
+		verifrt.Assert("C29.resolve-after-publish-succeeds", err == nil)
+		if err != nil {
+			continue
+		}
+		verifrt.Observe("resolved", res.Path.String())
+		verifrt.Assert("C29.resolve-appends-own-remainder", res.Path.String() == vals[v].String()+rem)
+	}
+	verifrt.Reach("end")
+}
+
 // zz29FewDurs: the sub-pool used for publish TTLs and cache caps in the Publish/Resolve histories.
 var zz29FewDurs = []time.Duration{0, time.Minute, 100 * time.Hour}
 
